@@ -311,40 +311,7 @@ def _error_records(ck, repo):
     ok = isinstance(st, ast.Assign) and isinstance(st.value, ast.IfExp) and unparse(st.value.test) == "is_coercible_exception(exception)" \
         and unparse(st.value.body) == "exception"
     ck.ob("located_error keeps library errors as they are (user message and extensions preserved)", ok, le, st, construct="located:keep-coercible")
-    # what is bound into the error's coerce_value: keywords of partial(<its coerce_value>, k=v) and, for partial(cv, **d), the entries of d
-    single = {}
-    for n in walk_no_nested(le.node):
-        if isinstance(n, ast.Assign) and len(n.targets) == 1 and isinstance(n.targets[0], ast.Name):
-            single.setdefault(n.targets[0].id, []).append(n.value)
-
-    def _res(e):
-        t = unparse(e)
-        if isinstance(e, ast.Name) and len(single.get(e.id, [])) == 1:
-            return unparse(single[e.id][0])
-        return t
-
-    parts = [c for c in lv.calls("partial") if c.args and _res(c.args[0]).endswith(".coerce_value")]
-    bound = []
-    for c in parts:
-        for k in c.keywords:
-            if k.arg is not None:
-                bound.append((k.arg, unparse(k.value), c))
-            elif isinstance(k.value, ast.Name):
-                d = k.value.id
-                for n in walk_no_nested(le.node):
-                    if isinstance(n, ast.Assign) and isinstance(n.targets[0], ast.Subscript) and unparse(n.targets[0].value) == d and isinstance(n.targets[0].slice, ast.Constant):
-                        bound.append((n.targets[0].slice.value, unparse(n.value), n))
-                    if isinstance(n, ast.Assign) and unparse(n.targets[0]) == d and isinstance(n.value, ast.Dict):
-                        for kk, vv_ in zip(n.value.keys, n.value.values):
-                            if isinstance(kk, ast.Constant):
-                                bound.append((kk.value, unparse(vv_), n))
-    kws = sorted(k for k, _, _ in bound)
-    ck.ob("located_error attaches path and locations to errors that lack them", kws == ["locations", "path"], le, parts[0] if parts else le.node,
-          construct="located:attach", detail=str(kws))
-    for k, v, c in bound:
-        want = lp[2] if k == "path" else f"[node.location for node in {lp[1]}]"
-        ck.ob(f"located_error: attached {k} comes from the failing field", v == want, le, c, construct=f"located:attach:{k}")
-    _attach_table(ck, le, lv, parts)
+    located_error_terms(ck, repo)
     ap = [c for c in lv.calls("append")]
     rets = lv.returns()
     ok = len(ap) == 1 and len(rets) == 1 and unparse(rets[0].value) == f"MultipleException(exceptions={unparse(ap[0].func.value)})"
@@ -400,91 +367,8 @@ def _error_records(ck, repo):
     pc = [n for n in walk_no_nested(gn.node) if isinstance(n, ast.Assign) and unparse(n.targets[0]) == gp[2] and unparse(n.value) == f"{gp[2]}.as_list()"]
     ck.ob("graphql_error_from_nodes converts a Path (and only a Path) into the list of keys", len(pc) == 1 and set(gv.conditions(pc[0])) == {(f"isinstance({gp[2]}, Path)", "T")}, gn,
           pc[0] if pc else gn.node, construct="from-nodes:path-list")
-    for attr in ("path", "locations"):
-        loads = [n for n in ast.walk(le.node) if isinstance(n, ast.Attribute) and n.attr == attr and unparse(n.value) == "graphql_error" and isinstance(n.ctx, ast.Load)]
-        ok = bool(loads) and all((f"hasattr(graphql_error, '{attr}')", "T") in lv.conditions(n) for n in loads)
-        ck.ob(f"located_error reads `graphql_error.{attr}` only after hasattr said it exists (user exceptions need only coerce_value)", ok, le, loads[0] if loads else le.node,
-              construct=f"located:guarded-read:{attr}")
-    kwl = [n for n in ast.walk(le.node) if isinstance(n, ast.Attribute) and n.attr == "keywords" and isinstance(n.ctx, ast.Load)]
-
-    def _is_partial_guard(n):
-        obj = _res(n.value)
-        tests = {f"isinstance({obj}, partial)", f"isinstance({unparse(n.value)}, partial)"}
-        for t, o in lv.conditions(n):
-            if o != "T":
-                continue
-            if t in tests:
-                return True
-            # a flag holding the isinstance test (and set to True once a partial has been installed)
-            vals = {unparse(v) for v in single.get(t, [])} if t.isidentifier() else set()
-            if t.isidentifier() and not vals:
-                vals = {unparse(x.value) for x in walk_no_nested(le.node) if isinstance(x, ast.Assign) and unparse(x.targets[0]) == t}
-            if vals and vals <= tests | {"True"} and vals & tests:
-                return True
-        for a in lv.ancestors(n):
-            if isinstance(a, ast.IfExp) and unparse(a.test) in tests and any(x is n for x in ast.walk(a.body)):
-                return True
-        return False
-
-    ok = bool(kwl) and all(_is_partial_guard(n) for n in kwl)
-    ck.ob("located_error reads `.keywords` only of a partial", ok, le, kwl[0] if kwl else le.node, construct="located:guarded-read:keywords")
     from .c18 import error_record_shape
     error_record_shape(ck, repo)
-
-
-def _attach_table(ck, le, lv, parts):
-    """located_error attaches the failing field's path / locations exactly when the error carries none yet:
-    neither as its own attribute nor already attached by an inner (closer) field.  Otherwise an error
-    bubbling through non-null ancestors would be re-pathed at each level and end up pointing at the
-    ancestor that was nulled instead of the field that failed."""
-    import itertools
-    by_kw = {list(kwargs(c))[0]: c for c in parts if kwargs(c)}
-    if set(by_kw) != {"path", "locations"}:
-        return
-    lp = le.positional_params  # original_error, nodes, path
-    for what, given_name, attr in (("path", lp[2], "path"), ("locations", lp[1], "locations")):
-        atoms = Atoms({
-            given_name: "given",
-            f"hasattr(graphql_error, '{attr}')": "has_attr",
-            f"graphql_error.{attr}": "attr_truthy",
-            "isinstance(graphql_error.coerce_value, partial)": "is_partial",
-            f"'{attr}' in graphql_error.coerce_value.keywords": "kw",
-        })
-        target = lv.cfg_node(by_kw[what]).id
-        other = lv.cfg_node(by_kw["path" if what == "locations" else "locations"]).id
-        n = 0
-        for g, ha, at, ip, kw in itertools.product([False, True], repeat=5):
-            if kw and not ip and what == "path":
-                continue
-            if at and not ha:
-                continue
-            val = {"given": g, "has_attr": ha, "attr_truthy": at, "is_partial": ip, "kw": kw}
-            seen = set()
-            for tr in lv.cfg.simulate(lambda nd, env: evaluate(nd.ast, env, val, atoms)):
-                if not any(x.kind == "for" for x in tr.nodes) or not any(x.kind == "stmt" and isinstance(x.ast, ast.Expr) and "append" in x.text() for x in tr.nodes):
-                    continue  # the loop body did not run on this path
-                if what == "locations" and not ip and kw and other not in tr.path:
-                    continue  # `kw` without a partial is only feasible once the path was attached on this very call
-                seen.add(target in tr.path)
-            want = g and not (ha and at) and not ((ip or (what == "locations" and None)) and kw) if what == "path" else None
-            if what == "path":
-                n += 1
-                ck.ob(f"located_error attaches the path iff one is given, the error has none of its own and none was attached before {val}", seen == {want}, le, by_kw[what],
-                      construct="attach:path:" + "".join(str(int(v)) for v in val.values()),
-                      detail=f"attached on explored paths: {sorted(seen)}; specification: {want}" + atoms.note())
-            else:
-                # for locations the partial may have been created by the path attachment just before: then kw decides alone
-                ok = True
-                if not g or (ha and at):
-                    ok = seen <= {False}
-                elif not kw:
-                    ok = seen == {True}
-                elif ip:
-                    ok = seen == {False}
-                n += 1
-                ck.ob(f"located_error attaches the locations iff nodes are given, the error has none of its own and none were attached before {val}", ok and bool(seen), le, by_kw[what],
-                      construct="attach:locations:" + "".join(str(int(v)) for v in val.values()), detail=f"attached on explored paths: {sorted(seen)}" + atoms.note())
-        ck.counts[f"attach_{what}_valuations"] = n
 
 
 def _handler_census(ck, repo):
@@ -540,3 +424,88 @@ def _classify_handler(fv: FuncView, h: ast.ExceptHandler) -> str:
                 if uses:
                     return "exception kept as value"
     return "swallows"
+
+
+def located_error_terms(ck, repo):
+    """E13: located_error interpreted over abstract failures x nodes x paths.  Every member of the failure is located once;
+    a library error stays the same object; what gets bound into its coerce_value is exactly what it lacks: the path when one
+    is given and the error neither carries one nor has one bound already, the locations of the nodes likewise; an attribute
+    the error does not have is never read (user exceptions need only `coerce_value`)."""
+    from .. import absint
+    from ..absint import App, PartialV, RecV, Sym
+    le = repo.func(ERRORS, "located_error")
+    n = 0
+
+    def node(i):
+        return RecV("FieldNode", location=Sym(f"loc{i}"), _label=f"node{i}", _strict=True)
+
+    def from_nodes(args, kwargs):
+        nodes_ = kwargs.get("nodes")
+        nodes_ = nodes_ if isinstance(nodes_, list) else ([] if nodes_ is None else [nodes_])
+        return RecV("TartifletteError", bases=("Exception",), path=kwargs.get("path"), locations=[x.attrs["location"] for x in nodes_], coerce_value=Sym("TartifletteError.coerce_value"),
+                    original_error=kwargs.get("original_error"), _label="from_nodes", _strict=True)
+
+    def failures():
+        P0, L0 = ["bound", "path"], [Sym("bound-loc")]
+        cv = Sym("cv")
+        yield "user exception with coerce_value only", lambda: RecV("UserError", bases=("Exception",), coerce_value=cv, _strict=True)
+        yield "library error without path and locations", lambda: RecV("TartifletteError", bases=("Exception",), coerce_value=cv, path=None, locations=None, _strict=True)
+        yield "library error with empty path and locations", lambda: RecV("TartifletteError", bases=("Exception",), coerce_value=cv, path=[], locations=[], _strict=True)
+        yield "library error carrying its own path and locations", lambda: RecV("TartifletteError", bases=("Exception",), coerce_value=cv, path=["own"], locations=[Sym("own-loc")], _strict=True)
+        yield "error whose coercer already binds a path", lambda: RecV("TartifletteError", bases=("Exception",), coerce_value=PartialV(cv, (), {"path": P0}), path=None, locations=None, _strict=True)
+        yield "error whose coercer already binds path and locations", lambda: RecV("TartifletteError", bases=("Exception",), coerce_value=PartialV(cv, (), {"path": P0, "locations": L0}),
+                                                                                   path=None, locations=None, _strict=True)
+        yield "error whose coercer already binds locations", lambda: RecV("TartifletteError", bases=("Exception",), coerce_value=PartialV(cv, (), {"locations": L0}), path=None, locations=None,
+                                                                          _strict=True)
+        yield "foreign exception", lambda: RecV("ValueError", bases=("Exception",), _strict=True)
+
+    def expected(e, nodes_l, path):
+        if "coerce_value" not in e.attrs:
+            return None  # wrapped by graphql_error_from_nodes: carries path and locations itself
+        cv0 = e.attrs["coerce_value"]
+        bound = cv0.kwargs if isinstance(cv0, PartialV) else {}
+        add = {}
+        if path and not e.attrs.get("path") and "path" not in bound:
+            add["path"] = path
+        if nodes_l and not e.attrs.get("locations") and "locations" not in bound:
+            add["locations"] = [x.attrs["location"] for x in nodes_l]
+        return PartialV(cv0, (), add) if add else cv0
+
+    stubs = {"tartiflette.utils.errors.graphql_error_from_nodes": from_nodes}
+    for label, mk in failures():
+        for ntag, mknodes in (("no nodes", lambda: None), ("one node, not in a list", lambda: node(0)), ("two nodes", lambda: [node(0), node(1)])):
+            for ptag, path in (("no path", None), ("a path", ["a", 0])):
+                for multiple in (False, True):
+                    members = [mk(), mk()] if multiple else [mk()]
+                    orig = RecV("MultipleException", bases=("Exception",), exceptions=list(members), _strict=True) if multiple else members[0]
+                    # what each member held before the call (the call rebinds coerce_value in place)
+                    before = [RecV(m.cls, m.bases, **dict(m.attrs)) for m in members]
+                    nodes_v = mknodes()
+                    nodes_l = nodes_v if isinstance(nodes_v, list) else ([] if nodes_v is None else [nodes_v])
+                    it = absint.Interp(repo, le.module, interpret={"tartiflette.utils.errors.is_coercible_exception"}, stubs=stubs)
+                    tag = f"{label}; {ntag}; {ptag}" + ("; two members" if multiple else "")
+                    try:
+                        got = it.run(le, [orig, nodes_v, path])
+                        why = None
+                    except absint.Unsupported as ex:
+                        raise AnalysisError(f"{le.short}: cannot be interpreted over abstract failures: {ex}")
+                    except absint.PyRaise as ex:
+                        got, why = None, f"raises {ex.name} ({ex.text})"
+                    n += 1
+                    ok = why is None and isinstance(got, App) and repr(got.func).endswith("MultipleException")
+                    outs = []
+                    if ok:
+                        outs = got.kwargs.get("exceptions", got.args[0] if got.args else None)
+                        ok = isinstance(outs, list) and len(outs) == len(members)
+                    if ok:
+                        for m, b, o in zip(members, before, outs):
+                            want = expected(b, nodes_l, path)
+                            if want is None:
+                                ok = ok and isinstance(o, RecV) and o.attrs.get("_label") == "from_nodes" and o.attrs.get("original_error") is m and o.attrs.get("path") == path and \
+                                    absint.norm(o.attrs.get("coerce_value")) == absint.norm(Sym("TartifletteError.coerce_value"))
+                            else:
+                                ok = ok and o is m and absint.norm(o.attrs["coerce_value"]) == absint.norm(want)
+                            if not ok and why is None:
+                                why = f"member answered with coerce_value {o.attrs.get('coerce_value') if isinstance(o, RecV) else o!r}; expected {want!r}"
+                    ck.ob(f"located_error [{tag}]: each member located once, bound with exactly what it lacks", bool(ok), le, le.node, construct=f"located:terms:{tag}", detail=why or f"got {got!r}")
+    ck.count("located_error_shapes", n, 90)
